@@ -95,12 +95,14 @@ def run(chk):
         k = c.get("focus", "")
         (rest_e if k in seen_e else first_e).append(c)
         seen_e.add(k)
-    ents = first_e + rest_e[: (600 if quick else 6000)]
+    ents = first_e + rest_e[: (4000 if quick else 40000)]
     pres = chk.replay("entity-print", ents, "entprint", workers=W, timeout="60s")
     nent = 0
     for e in pres:
         note = (e.get("out") or {}).get("note") or ""
-        if note and "\nERROR:" not in note:
+        # (the printer driver also tries to compile and appends the error: here a declaration that does not compile is the finding)
+        note = note.split("\nERROR:")[0]
+        if note:
             raw.append({"files": {"foo/v1/foo.j5s": note}, "focus": "foo/v1/foo.j5s", "cls": "entity", "valid": True, "nolint": True})
             nent += 1
     chk.extra_cov["entity_declarations"] = nent
